@@ -1,12 +1,12 @@
-(* Model/Manifest.v -- column bounds through a manifest: FileManager.create_manifest_file writes one
+(* Model/Manifest13.v -- column bounds through a manifest: FileManager.create_manifest_file writes one
    record per entry (ADDED entries for the files of this commit -- several when a transaction appends
    several files -- then EXISTING entries for the survivors of a partial delete), read_manifest_file
-   gives back one DataFile per record.  The per-entry pieces are Gen/GenManifest.v, regenerated from the
+   gives back one DataFile per record.  The per-entry pieces are Gen/GenManifest13.v, regenerated from the
    source on every run; the Avro container in between is the identity on the list of records
    (assumption Avro-exact).  Definitions only. *)
 From Coq Require Import ZArith List Bool String.
 Require Import DS.Model.Value DS.Model.BoundPrim DS.Gen.GenBound DS.Model.Bound DS.Model.ManifestPrim
-               DS.Gen.GenManifest DS.Gen.GenPrune DS.Model.Prune.
+               DS.Gen.GenManifest13 DS.Gen.GenPrune DS.Model.Prune.
 Import ListNotations.
 Open Scope Z_scope.
 
